@@ -435,6 +435,8 @@ func (s *Sys) Create(t Tuple) Resp {
 type Delta struct {
 	Insert bool  `json:"insert"`
 	T      Tuple `json:"t"`
+	// Act, when set, is the action word sent over REST instead of the canonical one
+	Act string `json:"act,omitempty"`
 }
 
 func (s *Sys) Patch(ds []Delta) Resp {
@@ -443,6 +445,9 @@ func (s *Sys) Patch(ds []Delta) Resp {
 		a := ketoapi.ActionDelete
 		if d.Insert {
 			a = ketoapi.ActionInsert
+		}
+		if d.Act != "" {
+			a = ketoapi.PatchAction(d.Act)
 		}
 		body = append(body, &ketoapi.PatchDelta{Action: a, RelationTuple: d.T.API()})
 	}
